@@ -1842,6 +1842,7 @@ size_t ZSTDMT_compressStream_generic(ZSTDMT_CCtx* mtctx,
 
     /* fill input buffer */
     if ( (!mtctx->jobReady)
+      && (!mtctx->frameEnded)   /* the last job of this frame already exists : more input belongs to the next frame */
       && (input->size > input->pos) ) {   /* support NULL input */
         if (mtctx->inBuff.buffer.start == NULL) {
             assert(mtctx->inBuff.filled == 0); /* Can't fill an empty buffer */
@@ -1868,7 +1869,7 @@ size_t ZSTDMT_compressStream_generic(ZSTDMT_CCtx* mtctx,
             forwardInputProgress = syncPoint.toLoad>0;
         }
     }
-    if ((input->pos < input->size) && (endOp == ZSTD_e_end)) {
+    if ((input->pos < input->size) && (endOp == ZSTD_e_end) && (!mtctx->frameEnded)) {
         /* Can't end yet because the input is not fully consumed.
             * We are in one of these cases:
             * - mtctx->inBuff is NULL & empty: we couldn't get an input buffer so don't create a new job.
@@ -1890,7 +1891,7 @@ size_t ZSTDMT_compressStream_generic(ZSTDMT_CCtx* mtctx,
 
     /* check for potential compressed data ready to be flushed */
     {   size_t const remainingToFlush = ZSTDMT_flushProduced(mtctx, output, !forwardInputProgress, endOp); /* block if there was no forward input progress */
-        if (input->pos < input->size) return MAX(remainingToFlush, 1);  /* input not consumed : do not end flush yet */
+        if ((input->pos < input->size) && (!mtctx->frameEnded)) return MAX(remainingToFlush, 1);  /* input not consumed : do not end flush yet */
         DEBUGLOG(5, "end of ZSTDMT_compressStream_generic: remainingToFlush = %u", (U32)remainingToFlush);
         return remainingToFlush;
     }
